@@ -1,7 +1,7 @@
 (** C11 -- tiling theorems about the regenerated tables (Gen/*.v): refine(), split_column(),
     triangulate_column() and decompose_column(); conformity across a shared side; surfaces. *)
 From Coq Require Import List Arith Bool ZArith Reals Lra Lia.
-From P Require Import Geom Comb Cross Tiling.
+From P Require Import Geom Comb Cross Tiling Centroid.
 From Gen Require Import GenRefine GenArea GenPos GenDecomp GenGood.
 From P Require Import Model Conform Main.
 Import ListNotations.
@@ -63,6 +63,32 @@ Proof.
   exists istart, e. split; [auto|]. split; [auto|]. split.
   - apply (subdivision_tiles_ cs c istart sides e Hsub Hx Hg).
   - apply (subdivision_tiles_orient_ cs c istart sides e Hsub Hx Hg). apply convex_good; auto.
+Qed.
+
+(** the default centre (column.centre = polygon centroid) meets the two hypotheses on c *)
+Lemma centroid_ok_ cs : length cs = 3 \/ length cs = 4 -> convex_ccw cs ->
+  interior cs (rcentroid cs) /\ centre_ok cs (rcentroid cs).
+Proof.
+  intros [H|H] Hc; destruct_len cs H.
+  - apply centroid_ok_tri; auto.
+  - apply centroid_ok_quad; auto.
+Qed.
+Lemma refine_column_tiles_centroid_ (cs : list pt) (sides : list nat) :
+  length cs = 3 \/ length cs = 4 -> is_side_set (length cs) sides = true -> sides <> [] -> convex_ccw cs ->
+  let c := rcentroid cs in
+  exists istart e, refine_children (length cs) sides = Some (istart, e) /\ children_good cs c istart e /\
+    (forall p, zsum (child_wns cs c istart e p) = wn cs p /\
+               (wn cs p = 1%Z -> exactly_one (child_wns cs c istart e p)) /\
+               (wn cs p = 0%Z -> forall j, nth j (child_wns cs c istart e p) 0%Z = 0%Z)) /\
+    (forall p,
+       (forall i j, i < length e -> j < length e ->
+          strictly_inside (map (vpos cs c istart) (nth i e [])) p ->
+          strictly_inside (map (vpos cs c istart) (nth j e [])) p -> i = j) /\
+       (forall i, i < length e -> strictly_inside (map (vpos cs c istart) (nth i e [])) p -> inside_closed cs p) /\
+       (strictly_inside cs p -> exists i, i < length e /\ inside_closed (map (vpos cs c istart) (nth i e [])) p)).
+Proof.
+  intros Hnn Hs Hne Hc c. destruct (centroid_ok_ cs Hnn Hc) as [Hi Hce].
+  apply refine_column_tiles_; auto.
 Qed.
 
 (** ** split_column *)
